@@ -778,7 +778,7 @@ func (x *Exec) box(st *State, v *Value, it types.Type) *Value {
 	}
 	tag := x.b.Int(int64(x.eng.typeId(v.T)))
 	// canonical boxing through an injective UF per leaf set: dyn = box_T(leaves...)
-	tn := sanitize(types.TypeString(v.T, func(*types.Package) string { return "" }))
+	tn := sanitize(canonTypeString(v.T))
 	ps := v.paths()
 	var args []*Term
 	for _, p := range ps {
@@ -813,7 +813,7 @@ func (x *Exec) unbox(st *State, iv *Value, t types.Type) *Value {
 	if types.IsInterface(t) {
 		return &Value{T: t, L: iv.L}
 	}
-	tn := sanitize(types.TypeString(t, func(*types.Package) string { return "" }))
+	tn := sanitize(canonTypeString(t))
 	out := &Value{T: t, L: map[string]*Term{}}
 	for _, l := range x.leavesOf(t) {
 		out.L[l.path] = x.b.App("unbox."+tn+"."+l.path, l.sort, iv.L["dyn"])
